@@ -1,6 +1,7 @@
 package checks
 
 import (
+	"encoding/json"
 	"fmt"
 	"os"
 	"strconv"
@@ -9,11 +10,14 @@ import (
 	"saomc/replica"
 	"saomc/world"
 
+	didkeeper "github.com/SaoNetwork/sao/x/did/keeper"
 	didtypes "github.com/SaoNetwork/sao/x/did/types"
 	nodetypes "github.com/SaoNetwork/sao/x/node/types"
 	ordertypes "github.com/SaoNetwork/sao/x/order/types"
 	saotypes "github.com/SaoNetwork/sao/x/sao/types"
 	sdk "github.com/cosmos/cosmos-sdk/types"
+	govv1beta1 "github.com/cosmos/cosmos-sdk/x/gov/types/v1beta1"
+	paramproposal "github.com/cosmos/cosmos-sdk/x/params/types/proposal"
 	stakingtypes "github.com/cosmos/cosmos-sdk/x/staking/types"
 )
 
@@ -361,7 +365,30 @@ func ScriptSidRewards() *replica.Script {
 		}),
 		fx("claim(S1)", func(w *world.World) sdk.Msg { return &nodetypes.MsgClaimReward{Creator: w.A(world.S1).S()} }),
 	}
-	b5 := []replica.TxSpec{sidStore("update(sid owner)", commitName(5), 1, world.Cid2)}
+	// a second account joins the sid DID, then the DID rotates its keys and drops that account again; the rotation is
+	// dated relative to the wall clock (see wallNow): a handler that compares it with the node's clock instead of the
+	// block's flips between accepted and "out of date" inside the explored clock offsets
+	rotTs := uint64(wallNow - 5*60)
+	newKeys := []*didtypes.PubKey{{Name: "k1", Value: sd.Keys[0].Value}, {Name: "k2", Value: world.NewSid("k2", "script-sid-5-second-key", 0).Keys[0].Value}}
+	newDoc, _ := didkeeper.CalculateDocId(newKeys, rotTs)
+	b4 = append(b4, fx("bind(sid,second account V2)", func(w *world.World) sdk.Msg {
+		t4 := uint64(world.BlockTime(4).Unix())
+		m := world.BindingMsg(sd, w.A(world.V2), w.A(world.T), world.CosmosProof(w.A(world.V2), sd.Did, "bind "+sd.Did, t4))
+		return m
+	}))
+	b5 := []replica.TxSpec{sidStore("update(sid owner)", commitName(5), 1, world.Cid2),
+		{Name: "rotate(sid,drop V2)", Build: func(w *world.World, ctx sdk.Context) sdk.Msg {
+			l, _ := w.App.DidKeeper.GetAccountList(ctx, sd.Did)
+			m := &didtypes.MsgUpdate{Creator: w.A(world.T).S(), Did: sd.Did, NewDocId: newDoc, Keys: newKeys, Timestamp: rotTs, PastSeed: "seed-1"}
+			for _, ad := range l.AccountDids {
+				if id, ok := w.App.DidKeeper.GetAccountId(ctx, ad); ok && id.AccountId == w.A(world.V2).AccountId() {
+					m.RemoveAccountDid = append(m.RemoveAccountDid, ad)
+				} else {
+					m.UpdateAccountAuth = append(m.UpdateAccountAuth, &didtypes.AccountAuth{AccountDid: ad, AccountEncryptedSeed: "s2", SidEncryptedAccount: "e2"})
+				}
+			}
+			return m
+		}}}
 	b6 := []replica.TxSpec{completeOpen(0),
 		fx("permission(sid owner)", func(w *world.World) sdk.Msg {
 			pp := saotypes.PermissionProposal{Owner: sd.Did, DataId: world.Data1, ReadwriteDids: []string{w.A(world.O).Did}}
@@ -371,14 +398,92 @@ func ScriptSidRewards() *replica.Script {
 		fx("claim(S1)", func(w *world.World) sdk.Msg { return &nodetypes.MsgClaimReward{Creator: w.A(world.S1).S()} }),
 		fx("claim(S2)", func(w *world.World) sdk.Msg { return &nodetypes.MsgClaimReward{Creator: w.A(world.S2).S()} }),
 		fx("terminate(sid owner)", func(w *world.World) sdk.Msg {
+			// signed under the document version created by the rotation
 			tp := saotypes.TerminateProposal{Owner: sd.Did, DataId: world.Data1}
-			return &saotypes.MsgTerminate{Creator: g(w), Provider: g(w), Proposal: tp, JwsSignature: world.SignKid(sd.KeyPriv, sd.Kid(sd.DocId), &tp)}
+			return &saotypes.MsgTerminate{Creator: g(w), Provider: g(w), Proposal: tp, JwsSignature: world.SignKid(sd.KeyPriv, sd.Kid(newDoc), &tp)}
 		})}
 	sc.Blocks = []replica.Block{{Txs: b1}, {Txs: b2}, {Txs: b3}, {Txs: b4}, {Txs: b5}, {Txs: b6, SkipTo: 42, EveryHeight: true}, {Txs: b7}}
 	return sc
 }
 
+// ScriptGovParams: the node module's parameters are changed by a governance proposal (written to the parameter store by
+// the gov end-blocker, not through the keeper's own setters) while nodes, an order, a fault report and rewards depend on
+// them; every height is a stream position.
+func ScriptGovParams() *replica.Script {
+	sc := &replica.Script{Name: "S6-gov-params", Cfg: world.Config{GovFast: true, OfflineTrigger: 30, VstorageThresh: 50_000_000, Baseline: 1}}
+	coin := func(n int64) sdk.Coin { return sdk.NewInt64Coin(world.Denom, n) }
+	node := func(i int, st uint32) []replica.TxSpec {
+		return []replica.TxSpec{
+			fx(fmt.Sprintf("create(%d)", i), func(w *world.World) sdk.Msg { return &nodetypes.MsgCreate{Creator: w.A(i).S()} }),
+			fx(fmt.Sprintf("reset(%d)", i), func(w *world.World) sdk.Msg { return &nodetypes.MsgReset{Creator: w.A(i).S(), Status: st} }),
+		}
+	}
+	b1 := append(node(world.G, GatewayStatus), node(world.S1, FullStatus)...)
+	b1 = append(b1, node(world.S2, FullStatus)...)
+	b1 = append(b1, node(world.W, GatewayStatus)...)
+	b1 = append(b1,
+		fx("addv(S1)", func(w *world.World) sdk.Msg {
+			return &nodetypes.MsgAddVstorage{Creator: w.A(world.S1).S(), Size_: 10_000_000}
+		}),
+		fx("addv(S2)", func(w *world.World) sdk.Msg {
+			return &nodetypes.MsgAddVstorage{Creator: w.A(world.S2).S(), Size_: 10_000_000}
+		}),
+		fx("payaddr(O)", func(w *world.World) sdk.Msg {
+			return &didtypes.MsgUpdatePaymentAddress{Creator: w.A(world.O).S(), AccountId: w.A(world.O).AccountId(), Did: w.A(world.O).Did}
+		}),
+		fx("delegate(S1,200M)", func(w *world.World) sdk.Msg {
+			return &stakingtypes.MsgDelegate{DelegatorAddress: w.A(world.S1).S(), ValidatorAddress: sdk.ValAddress(w.A(world.V).Addr).String(), Amount: coin(200_000_000)}
+		}))
+	store := func(name, data string) replica.TxSpec {
+		return fx(name, func(w *world.World) sdk.Msg {
+			return StoreMsg(w, StoreP{Signer: world.O, Relayer: world.G, Gateway: world.G, DataId: data, CommitId: data, Size: 1_000_000, Replica: 1, Duration: 3600, Timeout: 100})
+		})
+	}
+	report := replica.TxSpec{Name: "report(W)", Build: func(w *world.World, ctx sdk.Context) sdk.Msg {
+		var fs []*saotypes.Fault
+		prov := w.A(world.S1).S()
+		for _, sh := range w.App.OrderKeeper.GetAllShard(ctx) {
+			if sh.Status == ordertypes.ShardCompleted {
+				o, _ := w.App.OrderKeeper.GetOrder(ctx, sh.OrderId)
+				prov = sh.Sp
+				fs = append(fs, &saotypes.Fault{DataId: o.DataId, OrderId: o.Id, ShardId: sh.Id, CommitId: "zz", Provider: sh.Sp})
+				break
+			}
+		}
+		return &saotypes.MsgReportFaults{Creator: w.A(world.W).S(), Provider: prov, Faults: fs}
+	}}
+	b2 := []replica.TxSpec{store("store(D1)", world.Data1), completeOpen(0), report,
+		fx("submit(param changes)", func(w *world.World) sdk.Msg {
+			br, _ := json.Marshal(coin(1_000_000))
+			content := paramproposal.NewParameterChangeProposal("node parameters", "offline window, rewards, fishmen, capacity threshold", []paramproposal.ParamChange{
+				paramproposal.NewParamChange(nodetypes.ModuleName, string(nodetypes.KeyOfflineTriggerHeight), `"4"`),
+				paramproposal.NewParamChange(nodetypes.ModuleName, string(nodetypes.KeyBlockReward), string(br)),
+				paramproposal.NewParamChange(nodetypes.ModuleName, string(nodetypes.KeyFishmenInfo), `"`+w.A(world.W).S()+`"`),
+				paramproposal.NewParamChange(nodetypes.ModuleName, string(nodetypes.KeyVstorageThreshold), `"5000000"`),
+			})
+			m, err := govv1beta1.NewMsgSubmitProposal(content, sdk.NewCoins(coin(1000)), w.A(world.V).Addr)
+			if err != nil {
+				panic(err)
+			}
+			return m
+		}),
+		fx("vote(V,yes)", func(w *world.World) sdk.Msg { return govv1beta1.NewMsgVote(w.A(world.V).Addr, 1, govv1beta1.OptionYes) })}
+	// heights 3..6 pass (the proposal is executed by the gov end-blocker when its voting period ends), then the
+	// parameters matter: S1 refreshes its registration (role decision under the new threshold), W reports again (now a
+	// fishman), a second order needs an online provider under the new offline window, rewards are claimed
+	b3 := []replica.TxSpec{
+		fx("reset(S1,validator V)", func(w *world.World) sdk.Msg {
+			return &nodetypes.MsgReset{Creator: w.A(world.S1).S(), Status: FullStatus, Validator: sdk.ValAddress(w.A(world.V).Addr).String()}
+		}),
+		report}
+	b4 := []replica.TxSpec{store("store(D2)", world.Data2), completeOpen(0),
+		fx("claim(S1)", func(w *world.World) sdk.Msg { return &nodetypes.MsgClaimReward{Creator: w.A(world.S1).S()} }),
+		fx("claim(S2)", func(w *world.World) sdk.Msg { return &nodetypes.MsgClaimReward{Creator: w.A(world.S2).S()} })}
+	sc.Blocks = []replica.Block{{Txs: b1}, {Txs: b2, SkipTo: 7, EveryHeight: true}, {Txs: b3, SkipTo: 13, EveryHeight: true}, {Txs: b4, SkipTo: 16, EveryHeight: true}}
+	return sc
+}
+
 // AllScripts lists every engine-R script (the child processes of the restart leg look them up by name).
 func AllScripts() []*replica.Script {
-	return []*replica.Script{ScriptStorage(false), ScriptStaking(), ScriptTies(), ScriptSidRewards(), ScriptStorage(true)}
+	return []*replica.Script{ScriptStorage(false), ScriptStaking(), ScriptTies(), ScriptSidRewards(), ScriptGovParams(), ScriptStorage(true)}
 }
